@@ -51,11 +51,16 @@ type c09Engine struct {
 	// KillBudget: after this many deadline / memory-cap kills within one unit the rest of the unit
 	// is skipped (keeps the run time bounded when something hangs everywhere)
 	KillBudget int
-	KeepText   bool       // keep the value / message text of every result (default: faults and samples only)
-	parent     *c09Engine // set in the confirming copy: workers are started through the parent
-	jailSeq    atomic.Int64
-	starts     atomic.Int64
-	kills      atomic.Int64
+	// Expected: case texts of listed findings of kind unbounded (they run until the deadline or the
+	// memory cap). Their kills do not count against the budget; with SkipExpected they are not run at
+	// all (status K).
+	Expected     map[string]bool
+	SkipExpected bool
+	KeepText     bool       // keep the value / message text of every result (default: faults and samples only)
+	parent       *c09Engine // set in the confirming copy: workers are started through the parent
+	jailSeq      atomic.Int64
+	starts       atomic.Int64
+	kills        atomic.Int64
 }
 
 func c09NewEngine(c *lib.Ctx) *c09Engine {
@@ -66,6 +71,9 @@ func c09NewEngine(c *lib.Ctx) *c09Engine {
 	e := &c09Engine{Root: c.Root, Self: self, Deadline: 5 * time.Second, RSSCap: 2 << 30, Par: 12, KillBudget: 8}
 	if os.Geteuid() == 0 && os.Getenv("C09_KEEP_ROOT") == "" {
 		e.DropPriv = true
+	}
+	if os.Getenv("C09_NOCAP") != "" {
+		e.KillBudget = 1 << 30 // regenerating the findings: run every cell
 	}
 	if v, err := strconv.Atoi(os.Getenv("C09_PAR")); err == nil && v > 0 {
 		e.Par = v
@@ -235,16 +243,28 @@ func (e *c09Engine) RunUnit(cases []c09Case, isolate bool) []c09Result {
 			}
 			break
 		}
+		if e.SkipExpected && !isolate && e.Expected[cases[next].Text] {
+			res[next] = c09Result{Status: "K", Stage: "eval", Session: next}
+			next++
+			continue
+		}
 		end := len(cases)
 		if isolate {
 			end = next + 1
+		} else if e.SkipExpected {
+			for j := next; j < end; j++ {
+				if e.Expected[cases[j].Text] {
+					end = j
+					break
+				}
+			}
 		}
 		n := e.runSome(cases[next:end], res[next:end], isolate)
 		for i := next; i < next+n; i++ {
 			res[i].Session = next
 		}
 		next += n
-		if st := res[next-1].Status; st == "H" || st == "M" {
+		if st := res[next-1].Status; (st == "H" || st == "M") && !e.Expected[cases[next-1].Text] {
 			killed++
 		}
 	}
@@ -385,7 +405,7 @@ func (e *c09Engine) RunIsolated(units [][]c09Case) [][]c09Result {
 // load cannot produce a deadline verdict.
 func (e *c09Engine) Confirming() *c09Engine {
 	return &c09Engine{Root: e.Root, Self: e.Self, Deadline: 3 * e.Deadline, RSSCap: e.RSSCap, DropPriv: e.DropPriv,
-		Par: e.Par, KillBudget: 1 << 30, parent: e}
+		Par: e.Par, KillBudget: 1 << 30, parent: e, Expected: e.Expected}
 }
 
 func (e *c09Engine) runUnits(units [][]c09Case, isolate bool, progress func(i int, res []c09Result)) [][]c09Result {
